@@ -57,3 +57,7 @@ package goja
 //@   freevars obj *Object
 //@   requires obj != nil && obj.runtime != nil && obj.runtime.vm != nil
 //@   ensures len(args) > 0 && specForeignObject(args[0], obj.runtime) ==> err != nil [an-object-of-another-runtime-is-rejected]
+
+// The instructions of a compiled Program are shared by every Runtime that runs it: nothing outside the
+// compiler writes to an instruction's fields or into the maps and slices it holds.
+//@ immutable-impl instruction built-in compiler.go compiler_expr.go compiler_stmt.go
